@@ -19,6 +19,15 @@ CHECKS = {
  "C03": ("exploration", "exhaustive bounded enumeration (all 128 legacy hash types x tx shapes x in-range indices x filled/unfilled inputs) against a reference of the original algorithm certified on the node's legacy vectors",
          "Every element of the product space is serialised by the library's legacy path and by the reference; byte equality, the SIGHASH_SINGLE constant and non-modification of the caller's transaction are checked on each.",
          "Same reference and anchor as C02.", "DESIGN.md §4 C03"),
+ "C13": ("exploration", "exhaustive bounded enumeration of scripts, part lists and opcode/push sequences through every script codec against a reference tokenizer",
+         "Every byte string up to length 2/3, every truncation of 40 longer scripts, every part list over the push-boundary lengths and every ASM sequence up to length 2/3 over the full non-push opcode alphabet is round-tripped and compared with the reference tokenizer / shortest-prefix table.",
+         "Reference tokenizer in internal/props/c14.go, prefix table in c13.go; trusted: encoding/hex, encoding/json.", "DESIGN.md §4 C13"),
+ "C15": ("exploration", "exhaustive enumeration of every single-character edit of derived addresses through every acceptor, against a reference Base58Check codec",
+         "For each hash/key and network every substitution, transposition, insertion and deletion of the derived address (plus wrong versions/lengths with correct checksums) is offered to all five acceptors; acceptance must equal the reference decoder's verdict; all constructors must agree on the canonical script.",
+         "Reference Base58Check in internal/props/c15.go (math/big); known finding: NewAddressFromString path ignores the checksum (cannot be fixed without failing the repository's own tests).", "DESIGN.md §4 C15"),
+ "C17": ("exploration", "exhaustive enumeration of all 65,025 version/network pairs and every single-character corruption of 40 encodings against a reference BIP276 codec",
+         "All (version, network) pairs x prefixes x payload lengths are encoded and decoded and compared with the specified layout; every single-character substitution/insertion/deletion of valid texts must be rejected whenever the reference rejects.",
+         "Reference codec in internal/props/c17.go; known findings: field order is network-then-version (pinned by the repository's own test), so texts with version != network fail layout and round trip.", "DESIGN.md §4 C17"),
 }
 
 PENDING_REASON = "check not built yet in this round (planned, see DESIGN.md §4); not claimed until its exhaustive check exists and is quiet on the unchanged tree"
